@@ -91,6 +91,10 @@ ASSUMPTIONS = [
     "set of the configurations added, keyed as documented by Domain.match_string (exact for discrete values, 7 significant "
     "digits for floats); the private exclusion lists are additionally read when None is returned, only to choose between the "
     "mechanism keys ':retries_exhausted' and ':exclusion_list_full' (degrades to ':unknown')",
+    "direct face of clause 1: for the space of every case, cube corners and vectors with coordinates exactly 0.0 / 1.0 are "
+    "decoded through the public HyperparameterRanges.from_ndarray (the path the GP searchers and DEHB use) and must be "
+    "members, bounds exact; about 30 % of the unrestricted GP histories use log / reverse-log scaled boxes with bounds that "
+    "do not survive exp(log(b)) and a metric monotone in every parameter, so that local optimisation ends on the boundary",
     "an exception out of suggest() is a violation; an exception out of another scheduler API ends the history and is "
     "counted (other_api_raised:*), it belongs to other properties",
 ]
@@ -155,6 +159,9 @@ def floors(tier):
         "histories_with_failure": 60 * k,
         "initial_points_with_conflicting_constant": 100 * k,
         "initial_points_with_key_outside_space": 60 * k,
+        "decided:cube_corner_decode": 15000 * k,
+        "cube_corner_decode_clipped_onto_log_bound": 150 * k,
+        "gp_suggestion_clipped_onto_non_round_tripping_log_bound": 8 * k,
         "nearly_exhausted_medium_space:bayesopt": 2 * k,
         "nearly_exhausted_medium_space:hb_bayesopt": 2 * k,
         "nearly_exhausted_medium_space:hypertune": 2 * k,
@@ -866,6 +873,11 @@ class Oracle:
                 o.count("note:searcher_level_numpy_scalar")
                 v = v.item()
             o.count("decided:membership")
+            if P["ctor"] in ("loguniform", "reverseloguniform") and P["lower"] < P["upper"] and isinstance(v, float):
+                for which in ("lower", "upper"):
+                    if v == P[which] and non_round_tripping_bound(P, which):
+                        o.count("suggested_value_on_non_round_tripping_log_bound")
+                        o.count("suggested_value_on_non_round_tripping_log_bound:" + self.kind)
             how = c07._nonmember(P, v, self.values.get(k))
             if how is not None:
                 if how.startswith("type:"):
@@ -1348,8 +1360,108 @@ def expand(spec):
                   "max_t": 1 if kind == "bayesopt" else 2, "checkpointing": True,
                   "hb": {"type": "stopping", "mode": p["mode"], "grace_period": 1, "reduction_factor": 2, "max_t": 2,
                          "brackets": 2 if kind == "hypertune" else 1, "rung_system_per_bracket": False}})
+    # optimum in a corner of a log / reverse-log scaled box whose bounds do not survive exp(log(b)): the local
+    # optimisation of the acquisition function ends on the box boundary and the decoded value must still be a member
+    r5 = random.Random(spec["seed"] * 22695477 % (2 ** 32) + 7)
+    p["corner"] = kind in GP_KINDS and "space" not in spec and not p["restrict"] and not p["medium"] and r5.random() < 0.3
+    if p["corner"]:
+        cd = {}
+        for name in r5.sample(["lr", "wd", "mom", "b2"], r5.randint(2, 3)):
+            if r5.random() < 0.7:
+                lo = r5.choice([1e-6, 1e-5, 1e-4, 1e-3, 1e-2, 0.1])
+                up = r5.choice([u for u in (1e-2, 0.1, 3, 5.0, 7, 10, 20, 100, 1000) if u > lo])
+                cd[name] = {"ctor": "loguniform", "lower": lo, "upper": up}
+            else:
+                cd[name] = {"ctor": "reverseloguniform", "lower": r5.choice([0.0, 0.1, 0.3, 0.5]),
+                            "upper": r5.choice([0.7, 0.9, 0.99, 0.999])}
+        if r5.random() < 0.4:
+            cd["width"] = {"ctor": "randint", "lower": 1, "upper": r5.randint(2, 64)}
+        if r5.random() < 0.5:
+            cd["dataset"] = {"ctor": CONST, "value": "abc"}
+        p.update({"space": cd, "corner_signs": {k: r5.choice([-1.0, 1.0]) for k in cd}, "exhaust": False,
+                  "allow_duplicates": False, "use_mra": False, "nonfinite_rate": 0.0, "nonfinite_trials": 0.0, "fail_rate": 0.0,
+                  "n_workers": r5.randint(1, 2), "max_t": 1 if kind == "bayesopt" else 2, "checkpointing": True,
+                  "max_events": r5.randint(45, 70) if kind == "bayesopt" else r5.randint(60, 90),
+                  "search_options": dict(CHEAP_GP, opt_maxiter=r5.randint(5, 10), num_init_random=2),
+                  "hb": {"type": "stopping", "mode": p["mode"], "grace_period": 1, "reduction_factor": 2, "max_t": 2,
+                         "brackets": 2 if kind == "hypertune" else 1, "rung_system_per_bracket": False}})
     p.update({k: v for k, v in spec.items() if k not in ("seed", "kind") and not k.startswith("_")})
     return p
+
+
+class CornerMetric:
+    """Metric monotone in every (log / reverse-log scaled) hyperparameter: the optimum is a corner of the box."""
+
+    def __init__(self, desc, signs, mode):
+        self.desc, self.signs, self.mode = desc, signs, mode
+
+    def __call__(self, tid, level, config=None):
+        v = 0.0
+        for k, sg in self.signs.items():
+            P = self.desc.get(k)
+            if P is None or P["ctor"] == CONST or config is None or k not in config:
+                continue
+            x, lo, up = float(config[k]), float(P["lower"]), float(P["upper"])
+            if P["ctor"] == "loguniform":
+                t = (math.log(x) - math.log(lo)) / (math.log(up) - math.log(lo))
+            elif P["ctor"] == "reverseloguniform":
+                t = (math.log1p(-lo) - math.log1p(-x)) / (math.log1p(-lo) - math.log1p(-up))
+            else:
+                t = (x - lo) / max(up - lo, 1e-300)
+            v += sg * t
+        return (v if self.mode == "min" else -v) + 0.01 * level
+
+
+def non_round_tripping_bound(P, which):
+    """Does the bound of a log / reverse-log scaled float domain change under decode(encode(bound))?"""
+    b = float(P[which])
+    if P["ctor"] in ("loguniform", "qloguniform"):
+        return b > 0 and float(np.exp(np.log(b))) != b
+    if P["ctor"] == "reverseloguniform":
+        return float(1.0 - np.exp(np.log(1.0 - b))) != b
+    return False
+
+
+def decode_cube_corners(orc, seed):
+    """Direct face: the searchers legitimately produce encoded coordinates that are exactly 0.0 or 1.0 (local
+    optimisation ending on the box boundary, DEHB's clipped mutations); decoding them through the public
+    HyperparameterRanges.from_ndarray must give members of the domains (exact bounds, no tolerance)."""
+    o = orc.o
+    if not orc.hp:
+        return
+    try:
+        orc.matchstr({k: None for k in orc.hp})  # builds orc.hp_ranges through the public factory
+    except Exception:  # noqa: BLE001
+        pass
+    hpr = orc.hp_ranges
+    if hpr is None:
+        return
+    rng = random.Random(seed)
+    n = hpr.ndarray_size
+    vecs = [np.zeros(n), np.ones(n)]
+    for _ in range(6):
+        vecs.append(np.array([float(rng.random() < 0.5) for _ in range(n)]))
+    for _ in range(2):
+        vecs.append(np.array([rng.choice([0.0, 1.0, rng.random()]) for _ in range(n)]))
+    for u in vecs:
+        try:
+            cfg = hpr.from_ndarray(u)
+        except Exception as e:  # noqa: BLE001
+            orc.viol("typed_member", f"raised:from_ndarray:cube_corner:{type(e).__name__}", {"vector": u.tolist(), "error": repr(e)[:200]})
+            return
+        for k in orc.hp:
+            P = orc.desc[k]
+            o.count("decided:cube_corner_decode")
+            if P["ctor"] in ("loguniform", "qloguniform", "reverseloguniform") and P["lower"] < P["upper"]:
+                for which in ("lower", "upper"):
+                    if cfg[k] == P[which] and non_round_tripping_bound(P, which):
+                        # exp(log(b)) != b and the decoded value is the bound: the clip of the decoded value was needed
+                        o.count("cube_corner_decode_clipped_onto_log_bound")
+            how = c07._nonmember(P, cfg[k], orc.values.get(k))
+            if how is not None:
+                kind_ = "value_wrong_type" if how.startswith("type:") else "value_outside_domain"
+                orc.viol("typed_member", f"decode_cube_corner:{kind_}:{P['ctor']}:{how[5:] if how.startswith('type:') else how}",
+                         {"key": k, "value": cfg[k], "domain": P, "vector": u.tolist()})
 
 
 def medium_plan(p, desc, values):
@@ -1693,6 +1805,12 @@ class Monitor:
         orc.on_new(next_id, sugg.config, status_of, fresh=fresh, exempt_repeat=exempt, tag=tag)
         if self.kind in GP_KINDS and orc.post_initial > before and self._gp_model_based():
             o.count("gp_model_based_suggestions")
+            for k in orc.hp:
+                P, v = orc.desc[k], sugg.config.get(k)
+                if P["ctor"] in ("loguniform", "reverseloguniform") and P["lower"] < P["upper"] and isinstance(v, float):
+                    for which in ("lower", "upper"):
+                        if v == P[which] and non_round_tripping_bound(P, which):
+                            o.count("gp_suggestion_clipped_onto_non_round_tripping_log_bound")
 
 
 def run_scheduler_case(spec, p, o):
@@ -1764,7 +1882,9 @@ def run_scheduler_case(spec, p, o):
         for tid in range(200):
             if rng.random() < p["fail_rate"]:
                 fail[str(tid)] = [0, rng.randint(0, max(0, min(p["max_t"], 3) - 1))]
-    curves = NonFiniteMetrics(gen.Curves(p["curves"], spec["seed"] + 1, p["max_t"]), spec["seed"] + 4,
+    base_metric = CornerMetric(desc, p["corner_signs"], p["mode"]) if p.get("corner") else \
+        gen.Curves(p["curves"], spec["seed"] + 1, p["max_t"])
+    curves = NonFiniteMetrics(base_metric, spec["seed"] + 4,
                               p["nonfinite_rate"], p["nonfinite_trials"], p.get("nonfinite_plan"))
     vp = {"n_workers": p["n_workers"], "max_t": p["max_t"], "metric": "loss", "resource_attr": "epoch",
           "policy": p["policy"], "seed": spec["seed"] + 2, "max_events": p["max_events"],
@@ -1802,6 +1922,8 @@ def run_scheduler_case(spec, p, o):
         o.count("nearly_exhausted_medium_space:" + kind)
         o.count(f"medium_space_remaining:{medium[3]}")
         o.count("medium_space_configurations", medium[4])
+    if p.get("corner"):
+        o.count("corner_optimum_histories:" + kind)
     if any(e[0] == "error" for e in vt.events):
         o.count("histories_with_failure")
     for ev in vt.events[-50:]:
@@ -1920,6 +2042,7 @@ def run_case(spec):
             orc, vt = run_scheduler_case(spec, p, o)
     for c, m, d in contract_viol:
         orc.viol(c, m, d)
+    decode_cube_corners(orc, spec["seed"] + 9)
     if orc.rc_set is not None and len(orc.by_tpl) >= orc.size and not orc.viol_keys - {
             m for m in orc.viol_keys if m.endswith(":restricted_set_used_up")}:
         o.count("restricted_sets_fully_suggested")
